@@ -170,3 +170,95 @@ Lemma calls_ip_call_salt_err n inner msg sender f l a salt :
 Proof. intros ->. destruct ok2; run. Qed.
 
 End Gen.
+
+(* ------------------------------------------------------------------------------------------ *)
+(* The four kinds of generated PROXY METHOD (templates emit_mt_method_definition of contract/mt.rs; GenImp.mtmeth_fns): the
+   method's name is `<kind>_method`, its parameter list one symbolic argument `args`, the message it builds the constructor
+   value `<Kind>Msg::of [args]` - so the statements hold for every contract, every method and all arguments. Run with
+   the translated ExecProxy / MigrateProxy / App::app_mut of multitest.rs. *)
+Definition PM (ok : bool) (ty txt : string) (payload : value) : program :=
+  downcast_stub :: mt_program ++ mtmeth_fns ++
+  [chain_op "extern::execute_contract" exec_params ok ty txt payload;
+   chain_op "extern::migrate_contract" migrate_params ok ty txt payload;
+   chain_op "extern::query_wasm_smart" ["querier"; "contract_addr"; "msg"] ok ty txt payload;
+   chain_op "extern::wasm_sudo" ["app"; "contract_addr"; "msg"] ok ty txt payload].
+
+Definition msg_of (kind : string) (args : value) : value := VCon kind [args].
+
+(* what a proxy makes of the chain's answer to the request `req`: success unchanged; failure through `conv` *)
+Definition answered (ok : bool) (ty txt : string) (payload : value) (conv : value -> value) (name : string) (req : list value) : value :=
+  if ok then VCon "Ok" [did name req payload] else VCon "Err" [conv (anyhow ty (did name req payload) txt)].
+Definition via_downcast (e : value) : value := VCon "downcast_error" [e].
+Definition via_into (e : value) : value := VCon "Into::into" [e].
+
+Section Methods.
+Variables (ok : bool) (ty txt : string) (payload : value).
+Notation P := (PM ok ty txt payload).
+
+Lemma calls_exec_method addr app args :
+  calls P 3 "ProxyT::exec_method" [proxy_val addr app; args] (CVal (exec_proxy addr (msg_of "ExecMsg::of" args) app (VArr []))).
+Proof. destruct ok; run. Qed.
+
+Lemma calls_pm_with_funds addr msg app f f' :
+  calls P 3 "ExecProxy::with_funds" [exec_proxy addr msg app f; f'] (CVal (exec_proxy addr msg app f')).
+Proof. destruct ok; run. Qed.
+
+Lemma calls_pm_exec_call addr msg inner f sender :
+  calls P 3 "ExecProxy::call" [exec_proxy addr msg (app_val inner) f; sender]
+    (CVal (answered ok ty txt payload via_downcast "extern::execute_contract" [inner; sender; addr; msg; f])).
+Proof. unfold answered. destruct ok; run. Qed.
+
+Fixpoint pm_funds_chain (v : value) (fs : list value) (vfinal : value) : Prop :=
+  match fs with
+  | [] => v = vfinal
+  | f :: r => exists v', calls P 3 "ExecProxy::with_funds" [v; f] (CVal v') /\ pm_funds_chain v' r vfinal
+  end.
+
+Lemma pm_funds_chain_spec addr msg app : forall fs f0,
+  pm_funds_chain (exec_proxy addr msg app f0) fs (exec_proxy addr msg app (last fs f0)).
+Proof.
+  induction fs as [|f r IH]; intros f0; [reflexivity|].
+  cbn [pm_funds_chain]. exists (exec_proxy addr msg app f). split; [apply calls_pm_with_funds|].
+  rewrite last_cons. apply IH.
+Qed.
+
+(* exec, whole path, for every contract / method / arguments: proxy.method(args) -> with_funds* -> call(sender) makes exactly
+   the request execute_contract(app, sender, the proxy's address, the method's message of args, the last funds) *)
+Theorem generated_exec_path addr inner args fs sender :
+  exists p0 p1,
+    calls P 3 "ProxyT::exec_method" [proxy_val addr (app_val inner); args] (CVal p0) /\
+    pm_funds_chain p0 fs p1 /\
+    calls P 3 "ExecProxy::call" [p1; sender]
+      (CVal (answered ok ty txt payload via_downcast "extern::execute_contract"
+               [inner; sender; addr; msg_of "ExecMsg::of" args; last fs (VArr [])])).
+Proof.
+  exists (exec_proxy addr (msg_of "ExecMsg::of" args) (app_val inner) (VArr [])),
+         (exec_proxy addr (msg_of "ExecMsg::of" args) (app_val inner) (last fs (VArr []))).
+  split; [apply calls_exec_method|]. split; [apply pm_funds_chain_spec | apply calls_pm_exec_call].
+Qed.
+
+(* query: one request query_wasm_smart(the app's querier, address, message); an error is converted with Into::into *)
+Theorem generated_query_method addr app args :
+  calls P 3 "ProxyT::query_method" [proxy_val addr app; args]
+    (CVal (answered ok ty txt payload via_into "extern::query_wasm_smart" [app; addr; msg_of "QueryMsg::of" args])).
+Proof. unfold answered. destruct ok; run. Qed.
+
+(* sudo: one request wasm_sudo(app, address, message); a failure goes through downcast_error *)
+Theorem generated_sudo_method addr inner args :
+  calls P 3 "ProxyT::sudo_method" [proxy_val addr (app_val inner); args]
+    (CVal (answered ok ty txt payload via_downcast "extern::wasm_sudo" [inner; addr; msg_of "SudoMsg::of" args])).
+Proof. unfold answered. destruct ok; run. Qed.
+
+(* migrate: proxy.method(args).call(sender, code id) makes exactly migrate_contract(app, sender, address, message, code id) *)
+Theorem generated_migrate_path addr inner args sender code :
+  exists p0,
+    calls P 3 "ProxyT::migrate_method" [proxy_val addr (app_val inner); args] (CVal p0) /\
+    calls P 3 "MigrateProxy::call" [p0; sender; code]
+      (CVal (answered ok ty txt payload via_downcast "extern::migrate_contract"
+               [inner; sender; addr; msg_of "MigrateMsg::new" args; code])).
+Proof.
+  exists (migrate_proxy addr (msg_of "MigrateMsg::new" args) (app_val inner)).
+  unfold answered. split; destruct ok; run.
+Qed.
+
+End Methods.
